@@ -72,6 +72,14 @@ CHECKS.update({
    text='Breadth-first search over sequences of malloc/calloc/realloc/reallocarray/free calls (sizes 0..4096 and values at SIZE_MAX, exact and overflowing nmemb*size products, NULL and live slots, up to 3 live blocks) on the manager produced by uriCompleteMemoryManager over a malloc/free-only recording backend whose next malloc may be told to fail (at most 2 failures per history), depth 4 (quick) / 6 (thorough); after every call block contents, disjointness, zeroing, prefix preservation, ENOMEM and backend frees are compared with a model; every history ends with freeing everything and an empty backend.',
    ref='DESIGN.md section 3, C15', note=TRUST),
 })
+CHECKS.update({
+ 'C12': dict(cat='exploration', tech='bounded-exhaustive enumeration of (URI, history, final operation) with revocable source mappings (PROT_READ during the operation, overwritten, then PROT_NONE) and a twin object as oracle',
+   text='For every URI of the normalisation and shape corpora, under the histories parse / parse+resolve / parse+shorten (2 modes), followed by makeOwner or normalisation with each of the 63 masks: the source texts are write-protected during the operation, then the intermediate URIs are freed, the texts overwritten and finally unmapped-for-access; components and recomposed text must stay equal to a twin whose source stays alive, and a further normalisation and the final free must not fault. Read-only argument positions are exercised on URIs living entirely in PROT_READ memory.',
+   ref='DESIGN.md section 3, C12', note=TRUST),
+ 'C19': dict(cat='exploration', tech='bounded-exhaustive case-by-case differential between every char function and its wchar_t counterpart over the enumerations of the other checks',
+   text='Each input is run through the char function and the wchar_t function; the complete observation (codes, error offsets, component offsets and texts, host bytes, flags, text at every capacity, required sizes, charsWritten, query lists and counts, masks, returned pointers as offsets) is rendered after narrowing and must be identical; ten function families (parse, recompose, resolve, create reference, normalise incl. mask query and makeOwner, compare, escape, unescape, query, filename).',
+   ref='DESIGN.md section 3, C19', note=TRUST),
+})
 NOT_YET = {}
 def main():
     props = [json.loads(l) for l in open(os.path.join(VERIF, 'properties.jsonl'))]
